@@ -21,5 +21,8 @@ def run(prop, tier, replay):
         if replay:
             return p_e2.replay(prop, replay)
         return {"C11": p_e2.check_c11, "C12": p_e2.check_c12, "C16": p_e2.check_c16, "C17": p_e2.check_c17}[prop](tier)
+    if prop == "C10":
+        import p_c10
+        return p_c10.replay(replay) if replay else p_c10.check(tier)
     sys.stderr.write("no check implemented for %s\n" % prop)
     return 2
